@@ -714,7 +714,31 @@ class Interp:
                 self.exec_block(s.finalbody, fr)
 
     def x_With(self, s, fr):
-        raise Unsupported(f"with statement at {fr.qualname}:{s.lineno}")
+        """with <ctx> [as name]: body — the context manager's __enter__/__exit__ run natively (progress bars, locks, files);
+        an exception of the program is handed to __exit__ and re-raised unless it returns a true value"""
+        mgrs = []
+        for item in s.items:
+            ctx = self.eval(item.context_expr, fr)
+            val = self.native_call(type(ctx).__enter__, [ctx], {})
+            mgrs.append(ctx)
+            if item.optional_vars is not None:
+                self.assign(item.optional_vars, val, fr)
+        try:
+            self.exec_block(s.body, fr)
+        except ProgExc as pe:
+            swallow = False
+            for ctx in reversed(mgrs):
+                if self.native_call(type(ctx).__exit__, [ctx, type(pe.exc), pe.exc, None], {}):
+                    swallow = True
+            if not swallow:
+                raise
+            return
+        except (_Return, _Break, _Continue):
+            for ctx in reversed(mgrs):
+                self.native_call(type(ctx).__exit__, [ctx, None, None, None], {})
+            raise
+        for ctx in reversed(mgrs):
+            self.native_call(type(ctx).__exit__, [ctx, None, None, None], {})
 
     def x_FunctionDef(self, s, fr):
         c = Closure(self, s, [fr.locals] + fr.scopes, fr.globs, fr.qualname + ".<locals>." + s.name, fr.cls_name)
